@@ -168,6 +168,10 @@ Scenario ==
                               IF plt[cl].files[f][i].k = "H"
                               THEN <<plt[cl].files[f][i].idx, plt[cl].files[f][i].nc, plt[cl].files[f][i].canon>>
                               ELSE 0]]],
+   fragile |-> IF ~Damaged(plt, lim) THEN {} ELSE
+               (IF \A l \in 1..(lim + 1) : LevelGoodWith(plt[l], FALSE, TRUE, TRUE) THEN {"first-header"} ELSE {}) \cup
+               (IF \A l \in 1..(lim + 1) : LevelGoodWith(plt[l], TRUE, FALSE, TRUE) THEN {"offset-sort"} ELSE {}) \cup
+               (IF \A l \in 1..(lim + 1) : LevelGoodWith(plt[l], TRUE, TRUE, FALSE) THEN {"eof-rule"} ELSE {}),
    expect |-> [wellformed |-> applied = <<>>,
                damaged |-> Damaged(plt, lim),
                bounds_damaged |-> BoundsDamaged(plt, lim),
